@@ -3,7 +3,7 @@ import json
 import common
 
 PROPS = "RotoV.Props.C11"
-MODULES = ["RotoV.Lemmas.Lifetime", "RotoV.Model.Lifetime"]
+MODULES = ["RotoV.Lemmas.Lifetime", "RotoV.Lemmas.LifetimeOps", "RotoV.Model.Lifetime"]
 
 
 def search(ctx):
